@@ -35,7 +35,7 @@ RunFails(o, r, exp) ==
     \o (IF r.dregs = 0 /\ r.dvals = 0 /\ r.dframes = 0 THEN <<>> ELSE <<F("C06", "depths not restored")>>)
     \o (IF IsSkip(exp.v) \/ SameLog(exp.log, HostCalls(r.log)) THEN <<>> ELSE <<F("C17", "host call log")>>)
 Fails(o) ==
-  LET exp == Eval(TreeOf(o.ast), InputOf(o), HostOf(o), <<>>, FUELMAX)
+  LET exp == Run(TreeOf(o.ast), InputOf(o), HostOf(o), FUELMAX)
       per == [i \in DOMAIN o.runs |-> RunFails(o, o.runs[i], exp)]
       RECURSIVE Cat(_)
       Cat(i) == IF i > Len(per) THEN <<>> ELSE per[i] \o Cat(i + 1)
@@ -43,6 +43,6 @@ Fails(o) ==
 Report == LET f == Fails(Obs[c]) IN
           f.fails = <<>> \/ PrintT(<<"FAIL", ToJson([c |-> c, src |-> Obs[c].src, expv |-> f.exp.v, explog |-> f.exp.log, fails |-> f.fails])>>)
 \* how many observations are fully specified by the evaluator (vacuity guard; counted by bin/check from STAT lines)
-Stat == LET e == Eval(TreeOf(Obs[c].ast), InputOf(Obs[c]), HostOf(Obs[c]), <<>>, FUELMAX) IN
+Stat == LET e == Run(TreeOf(Obs[c].ast), InputOf(Obs[c]), HostOf(Obs[c]), FUELMAX) IN
         IsSkip(e.v) => PrintT(<<"STAT", ToJson([c |-> c, skip |-> TRUE])>>)
 ==============================================================================
